@@ -48,25 +48,40 @@ def run_round(c):
     kw = {"new_type": True} if c.get("new_type") else {}
     out = {}
     try:
-        coll = mk(data, moltype=c["moltype"], **kw)
+        if c.get("degap"):
+            # an alignment with an all-gap row, degapped: a collection holding a zero-length sequence
+            coll = cogent3.make_aligned_seqs(data, moltype=c["moltype"]).degap()
+        else:
+            coll = mk(data, moltype=c["moltype"], **kw)
         out["made"] = _recs(coll)
     except Exception as e:  # noqa: BLE001
         out["err"] = _err("make", e)
         return out
     d = _dir()
-    path = os.path.join(d, "x." + fmt + suffix)
+    path = os.path.join(d, c.get("stem", "x") + "." + c.get("ext", fmt) + suffix)
     wkw = {} if w is None else {"block_size": w}
+    try:
+        from cogent3.util.io import get_format_suffixes
+
+        out["gfs"] = list(get_format_suffixes(path))
+    except Exception as e:  # noqa: BLE001
+        out["gfs"] = {"exc": exc_code(e), "msg": f"{type(e).__name__}: {e}"[:120]}
     try:
         coll.write(path, **wkw)
     except Exception as e:  # noqa: BLE001
         out["err"] = _err("write", e)
         return out
-    raw = open(path, "rb").read()
-    if suffix == ".gz":
-        raw = gzip.decompress(raw)
-    elif suffix == ".bz2":
-        raw = bz2.decompress(raw)
-    out["text"] = raw.decode("utf8")
+    try:
+        raw = open(path, "rb").read()
+        if suffix == ".gz":
+            raw = gzip.decompress(raw)
+        elif suffix == ".bz2":
+            raw = bz2.decompress(raw)
+        out["text"] = raw.decode("utf8")
+    except Exception as e:  # noqa: BLE001
+        # the file on disk is not what its name says (e.g. not compressed although named .gz)
+        out["err"] = _err("readback", e)
+        return out
     # the same writer through other containers: plain dict of str, dict of Sequence objects, to_fasta/to_phylip
     names = [n for n, _ in out["made"]]
     dstr = {n: s for n, s in out["made"]}
@@ -312,6 +327,14 @@ def _run_case(c):
         return run_big(c)
     if k in ("gb", "gbstream"):
         return run_gb(c)
+    if k == "suffixes":
+        import pathlib
+
+        from cogent3.util.io import get_format_suffixes
+
+        a = list(get_format_suffixes(c["name"]))
+        b = list(get_format_suffixes(pathlib.Path(c["name"])))
+        return {"result": a, "routes_differ": [] if a == b else ["Path"]}
     if k == "registry":
         from cogent3.format.alignment import FORMATTERS
         from cogent3.parse.sequence import PARSERS, XML_PARSERS
